@@ -30,6 +30,12 @@ type Config struct {
 	TopicIDMin, TopicIDMax uint16
 	// AutoBroker, if set, answers what the gateway writes to the broker at once.
 	AutoBroker func(p refmqtt.Pkt) [][]byte
+	// EnforceKeepAlive makes the broker side behave like a broker that
+	// enforces MQTT keep-alive: it closes a connection on which no CONNECT
+	// arrives within NoConnectTimeout, and one that is silent for 1.5 x the
+	// CONNECT's keep-alive.
+	EnforceKeepAlive bool
+	NoConnectTimeout time.Duration
 }
 
 func DefaultConfig() Config {
@@ -58,22 +64,23 @@ type MQOut struct {
 }
 
 type GW struct {
-	S        *vsched.Sched
-	H        *gateway.VHandler
-	Cfg      Config
-	snGW     *vnet.Conn // handler's end of the MQTT-SN link
-	mqGW     *vnet.Conn // handler's end of the broker connection
-	Cancel   context.CancelFunc
-	Dialed   int
-	Returned bool
-	RetAt    time.Duration
-	snSeen   int
-	mqSeen   int
-	mqBuf    []byte
-	mqAt     time.Duration
-	MQErr    string // broker-bound byte stream not parseable
-	AllSN    []SNOut
-	AllMQ    []MQOut
+	S               *vsched.Sched
+	H               *gateway.VHandler
+	Cfg             Config
+	snGW            *vnet.Conn // handler's end of the MQTT-SN link
+	mqGW            *vnet.Conn // handler's end of the broker connection
+	Cancel          context.CancelFunc
+	Dialed          int
+	Returned        bool
+	RetAt           time.Duration
+	snSeen          int
+	mqSeen          int
+	mqBuf           []byte
+	mqAt            time.Duration
+	MQErr           string // broker-bound byte stream not parseable
+	AllSN           []SNOut
+	AllMQ           []MQOut
+	BrokerDroppedAt time.Duration // when the keep-alive enforcing broker closed the connection (0: never)
 }
 
 // New builds the handler the way ListenAndServe does and starts run() in a thread.
@@ -96,13 +103,35 @@ func (g *GW) StartWith(sh *gateway.VShared, predefined topics.PredefinedTopics) 
 		g.Dialed++
 		a, _ := vnet.Pair(fmt.Sprintf("mq%d", g.Dialed), true)
 		g.mqGW = a
-		if g.Cfg.AutoBroker != nil {
+		if g.Cfg.AutoBroker != nil || g.Cfg.EnforceKeepAlive {
+			var watchdog *vsched.Timer
+			var ka time.Duration
+			arm := func(d time.Duration) {
+				if watchdog != nil {
+					watchdog.Stop()
+				}
+				watchdog = g.S.AddTimer(d, nil, func() { g.BrokerDroppedAt = g.S.Now().Sub(vsched.Epoch); a.InjectEOF() }, false)
+			}
+			if g.Cfg.EnforceKeepAlive {
+				arm(g.Cfg.NoConnectTimeout)
+			}
 			a.Responder = func(b []byte) [][]byte {
 				p, _, err := refmqtt.Parse(b)
 				if err != nil {
 					return nil
 				}
-				return g.Cfg.AutoBroker(p)
+				if g.Cfg.EnforceKeepAlive {
+					if p.Type == refmqtt.CONNECT {
+						ka = time.Duration(p.KeepAlive) * time.Second
+					}
+					if ka > 0 {
+						arm(ka * 3 / 2)
+					}
+				}
+				if g.Cfg.AutoBroker != nil {
+					return g.Cfg.AutoBroker(p)
+				}
+				return nil
 			}
 		}
 		return a
